@@ -174,6 +174,12 @@ void run_life(const LifeSpec& spec, Life& L)
       tr << "\n";
       T.tick();
    }
+   // (d') words beyond the arena's oversize threshold (65536 bytes), the same spellings on every thread: every life
+   {
+      std::string w;
+      for (int k = 0; k < 3; ++k) { w.assign(65537 + std::size_t(k) * 4001, char('A' + k)); auto& s = lex.get_string(widen(w)); L.addr(&s, "oversize string"); auto& id = lex.get_identifier(widen(w)); L.addr(&id, "identifier with an oversize spelling"); tr << s.characters().size() << (&id.string() == &s) << ","; T.tick(); }
+      tr << "\n";
+   }
    // (e) a nest of blocks deeper than anything printed in this process before: whatever the printer keeps per process
    //     (and grows on demand) is exercised by several threads at once
    if (spec.nest > 0) {
